@@ -2,7 +2,7 @@ from .base import *
 from fractions import Fraction
 
 ID = 'C07'
-THEOREMS = ['C07_angle_steps', 'C07_geonum_steps', 'C07_base_angle', 'C07_is_opposite', 'C07_history', 'C07_four_more', 'C07_copy_blade', 'C07_grade_angle_range']
+THEOREMS = ['C07_angle_steps', 'C07_geonum_steps', 'C07_base_angle', 'C07_is_opposite', 'C07_history', 'C07_four_more', 'C07_copy_blade', 'C07_grade_angle_range', 'C07_direction', 'C07_half_turns']
 OWNED = {'ADual', 'AUndual', 'ANeg', 'AConj', 'ABase', 'AGrade', 'AIsGrade', 'AGradeAngle', 'AIsOpp', 'GDual', 'GUndual', 'GNeg',
          'GDiff', 'GInt', 'GIncr', 'GDecr', 'GBase', 'GCopyBlade', 'AAdd', 'ASub', 'AMul', 'ADivA'}
 RULE = ('single applications of every step operator on canonical angles/geonums (threshold remainders, blades to 2^40); is_opposite on blade pairs around 2, 2^31, 2^32+2, 2^40 with equal / 1-ulp / 1e-15 / far remainders; '
@@ -122,5 +122,5 @@ def generate(rng, tier):
 LEVEL_TEXT = ('Kernel-checked theorems about the model for ALL canonical angles: dual/undual/negate/conjugate add exactly 2 blades, differentiate/increment 1, integrate/decrement 3, '
               'remainder numerically and magnitude bit-for-bit unchanged; base_angle keeps blade mod 4; grade = blade mod 4; is_opposite <-> |blade gap| = 2 and remainders match; '
               'C07_history: by induction over ANY list of step operators the blade is the start blade plus the sum of the per-operation rules; four derivatives / two duals / derivative-then-integral add exactly 4. '
-              'copy_blade reaches the exact blade of the other when not smaller, else a blade 3..6 above and congruent mod 4, remainder and magnitude untouched (blades < 2^50); grade_angle of a canonical angle is finite and in [0, 4q). Histories that mix in additions/subtractions are decided by exact-rational predicates (S3).')
-LEVEL_NOTE = ('Trusted: Coq kernel + vm_compute; 4 standard-library axioms; hand-written model validated bit-for-bit each run; harness/emitter/predicates. No libm involved.')
+              'copy_blade reaches the exact blade of the other when not smaller, else a blade 3..6 above and congruent mod 4, remainder and magnitude untouched (blades < 2^50); grade_angle of a canonical angle is finite and in [0, 4q). C07_direction / C07_half_turns (REAL pi): a k-step operator turns the direction by EXACTLY k*pi/2 (no error term), so dual/undual/negate/conjugate flip the sign of cos and sin exactly. Histories that mix in additions/subtractions are decided by exact-rational predicates (S3).')
+LEVEL_NOTE = ('Trusted: Coq kernel + vm_compute; 4 standard-library axioms; plus the primitive-integer axioms (PrimInt63.*, Uint63.*_spec) that the Interval tactic uses for the two bounds on the real pi in PiBounds.v (direction theorems only); hand-written model validated bit-for-bit each run; harness/emitter/predicates. No libm involved.')
